@@ -96,6 +96,9 @@ func (c *glCtx) expr(e ast.Expr) string {
 					// a package-level byte string with a constant initialiser (`var magic = []byte("…")`)
 					if pp := pkgs[v.Pkg().Path()]; pp != nil {
 						if bs, ok := byteArrayVar(pp, v.Name()); ok {
+							if where := pkgVarWritten(v); where != "" {
+								c.fail(e, "package variable %s is written at %s: its initialiser is not its value", x.Name, where)
+							}
 							parts := make([]string, len(bs))
 							for i, b := range bs {
 								parts[i] = fmt.Sprint(b)
@@ -846,4 +849,62 @@ func isNamed(t types.Type, pkg, name string) bool {
 	}
 	n, ok := t.(*types.Named)
 	return ok && n.Obj().Pkg() != nil && n.Obj().Pkg().Path() == pkg && n.Obj().Name() == name
+}
+
+// pkgVarWritten: a package-level variable is translated as its initialiser only if no loaded package assigns to it (or to
+// an element of it), increments it or takes its address.  (Slicing it, `v[:]`, is allowed: the callers found in the
+// tree pass such slices to writers that only read them — recorded as an assumption in DESIGN.md.)
+var pkgVarWrittenCache = map[*types.Var]string{}
+
+func pkgVarWritten(v *types.Var) string {
+	if w, ok := pkgVarWrittenCache[v]; ok {
+		return w
+	}
+	where := ""
+	for _, p := range pkgs {
+		for _, f := range p.Syntax {
+			ast.Inspect(f, func(n ast.Node) bool {
+				if where != "" {
+					return false
+				}
+				root := func(e ast.Expr) types.Object {
+					for {
+						switch x := e.(type) {
+						case *ast.ParenExpr:
+							e = x.X
+						case *ast.IndexExpr:
+							e = x.X
+						case *ast.StarExpr:
+							e = x.X
+						case *ast.Ident:
+							return p.TypesInfo.Uses[x]
+						case *ast.SelectorExpr:
+							return p.TypesInfo.Uses[x.Sel]
+						default:
+							return nil
+						}
+					}
+				}
+				switch x := n.(type) {
+				case *ast.AssignStmt:
+					for _, l := range x.Lhs {
+						if root(l) == types.Object(v) {
+							where = p.Fset.Position(x.Pos()).String()
+						}
+					}
+				case *ast.IncDecStmt:
+					if root(x.X) == types.Object(v) {
+						where = p.Fset.Position(x.Pos()).String()
+					}
+				case *ast.UnaryExpr:
+					if x.Op == token.AND && root(x.X) == types.Object(v) {
+						where = p.Fset.Position(x.Pos()).String()
+					}
+				}
+				return true
+			})
+		}
+	}
+	pkgVarWrittenCache[v] = where
+	return where
 }
